@@ -75,6 +75,8 @@ const IDS: &[I] = &[
     I { name: "proc", user: None, group: None, exe: Some("/bin/sh"), proc_: Some("sh") },
     I { name: "any", user: None, group: None, exe: None, proc_: None },
     I { name: "both", user: Some("alice"), group: Some("vgrp"), exe: None, proc_: None },
+    // attributes that are stated but blank: stated is stated (no caller has an empty user name / a group named " ")
+    I { name: "blank", user: Some(""), group: Some(" "), exe: None, proc_: None },
 ];
 const ASGS: &[A] = &[
     A { role: "x", ids: &["alice"] },
@@ -82,6 +84,7 @@ const ASGS: &[A] = &[
     A { role: "ghost", ids: &["alice"] },
     A { role: "z", ids: &["proc", "both"] },
     A { role: "x", ids: &["any"] },
+    A { role: "y", ids: &["blank"] },
 ];
 
 #[derive(Clone, Debug)]
@@ -600,8 +603,8 @@ fn c03_sweep(thorough: bool) -> i32 {
     let max = if thorough { 2 } else { 1 };
     let privs = section_choices(PRIVS.len(), max);
     let roles = section_choices(ROLES.len(), max);
-    let ids = section_choices(IDS.len(), max);
-    let asgs = section_choices(ASGS.len(), max);
+    let ids = section_choices(IDS.len() - 1, max) // (C03 does not need the blank-attribute identity of the C02 pool);
+    let asgs = section_choices(ASGS.len() - 1, max);
     let modes: &[(&str, &str)] = &[("enforce", "deny"), ("enforce", "allow"), ("audit", "allow"), ("Audit", "deny"), ("disabled", "allow"), ("bogus", "allow")];
     let uris: Vec<hyper::Uri> = URLS.iter().map(|u| hyper::Uri::from_str(u).unwrap()).collect();
     let mut lg = ConnectionLogger::new(0, 0);
